@@ -61,6 +61,43 @@ Proof.
 Qed.
 Print Assumptions C19_for_step0_forever.
 
+(* ---- FOR reads its end and step once ----------------------------------------------------------------
+   The end and the step of a FOR may be any expressions, e.g. variables that the body - or a subroutine the
+   body calls - assigns to.  The loop keeps the VALUES they had when FOR was executed: in the reference
+   semantics the loop is the same loop with those values written in as constants (whatever body and rest
+   are), and the machine's loop record holds numbers, not references.  With C19_nested_refines: changing the
+   variable that was the bound does not change the trip count. *)
+Theorem C19_for_bounds_captured : forall subs g f cur v a b s nm body rest d vb vs,
+  eval d b = EV vb -> exact24 vb = true -> eval d s = EV vs -> exact24 vs = true ->
+  exec subs (S g) (S f) cur (TFor v a b s nm body :: rest) d =
+  exec subs (S g) (S f) cur (TFor v a (EConst vb) (EConst vs) nm body :: rest) d.
+Proof. exact for_bounds_captured. Qed.
+Print Assumptions C19_for_bounds_captured.
+
+Theorem C19_for_record_holds_values : forall code st v a b s va vb vs j k,
+  nth_error code (pc st) = Some (SFor v a b s) ->
+  eval (ds st) a = EV va -> eval (ds st) b = EV vb -> eval (ds st) s = EV vs ->
+  in16 va = true -> in16 vb = true -> in16 vs = true ->
+  scan_next (skipn (S (pc st)) code) (S (pc st)) 0 = Some (j, k) ->
+  match nth_error (vars_of_next code j) k with Some v' => Nat.eqb v' v | None => true end = true ->
+  (if vs >=? 0 then va >? vb else vb >? va) = false ->
+  step code st =
+    Go (set_pc (set_fors (set_var st v va)
+                 ({| f_var := v; f_stop := vb; f_step := vs; f_forpos := S (pc st); f_nidx := j; f_nk := k |}
+                  :: fors st)) (S (pc st))) [].
+Proof. exact for_step_record. Qed.
+Print Assumptions C19_for_record_holds_values.
+
+(* 10 N%=6:FOR I%=1 TO N%:PRINT I%:N%=N%-1:NEXT  prints 1..6 (machine and reference semantics) *)
+Example C19_for_bounds_nonvacuous :
+  let p := {| p_main := [TLine 10; TLet 7%nat (EConst 6);
+                         TFor 4%nat (EConst 1) (EVar 7%nat) (EConst 1) false
+                           [TPrint (EVar 4%nat); TLet 7%nat (ESub (EVar 7%nat) (EConst 1))]];
+              p_subs := [] |} in
+  wf_prog p /\ run_program (compile_prog p) 100 = ([1; 2; 3; 4; 5; 6], Finished) /\
+  exec_prog p 100 = ([1; 2; 3; 4; 5; 6], Finished).
+Proof. split; [apply wf_progb_ok; vm_compute; reflexivity|]. split; vm_compute; reflexivity. Qed.
+
 (* ---- GOSUB / RETURN ---------------------------------------------------------------------------------
    GOSUB records the calling statement on top of the stack and jumps; RETURN removes the top record and
    continues after the statement it names (at any depth: C19_nested_refines treats GOSUB as a call). *)
